@@ -32,6 +32,12 @@ CHECKS = {
     "C06": ("pbt-programs", "Hypothesis-generated (R1,R2,ratio) cases around every 2147-threshold compiled as static_assert blocks that must compile whatever the answer (totality) and answer as the model predicts (is_convertible/constructible/assignable, overload-resolution probe, common_type detection, QuantityPoint pairs); generated UBSan programs convert all |x|<=2147 for permitted integral cases; negative probes for unit-only as/in",
             "Exploration: enumerated grid of 10x10 reps x threshold-straddling factors plus random smooth ratios, every case judged individually under two configurations per run (rotating).",
             "trusts the documented predicate as model (reps.implicit_ok) and 128-bit products", "4/C06"),
+    "C07": ("pbt-programs", "Hypothesis-generated lists of same-dimension units (library, prefixed, anonymous/named scalings up to 2^40, pi powers) compiled as static_assert blocks: permutation/repetition identity, gcd magnitude spelled from the model, integer ratios with model values, input-already-common rule, nesting, std::common_type of quantities",
+            "Exploration: enumerated grid (all pairs/triples inside each library family, named-vs-anonymous equivalents) plus random lists, every permutation of each; no completeness over all lists.",
+            "trusts the model gcd over the independently tabulated magnitudes", "4/C07"),
+    "C10": ("pbt-programs", "Hypothesis-generated pairs/triples of point units (library temperature units, prefixed forms, generated scale+origin units); permutation/repetition identity by static_assert; a validity predicate evaluated on constexpr conversions of 0,1,7 (long long, long double, unsigned) and cross-checked against exact model fractions",
+            "Exploration with a validity oracle (any common point unit satisfying the statement is accepted), enumerated library grid plus random generated units.",
+            "generated units use int64_t origins; parameters reduced until intermediates fit 58 bits", "4/C10"),
 }
 ENGINES = [
     {"name": "pbt-programs", "path": "auverif/hyp.py", "kind_free_text": "Hypothesis-generated translation units judged by compiler verdict / static_assert / program output against an independent Python model",
